@@ -38,12 +38,21 @@ Pre32(t) == CASE t \in {"GLWECompressed", "LWECompressed"} -> {0, 4}
               [] OTHER -> {o \in 0..(PrefixLen(t) - 1) : o % 4 = 0}
 Inner64(t) == {InnerAt(t) + 8 * j : j \in 0..((InnerHdrLen(Kind(t)) \div 8) - 1)}
 
+\* receivers of the same byte capacity but another (n, cols, size) factorisation: the incoming object fits,
+\* yet "limbs" mean something else in the receiver's old shape
+Wide == [Sh(4) EXCEPT !.n = 16]          \* n = 16, one limb  (vec: 16*2*1*8 = 8*2*2*8 bytes)
+Tall == [Sh(16) EXCEPT !.n = 4]          \* n = 4, four limbs
 D(t, rsh, muts, cut) == [type |-> t, sh |-> Base, rsh |-> rsh, muts |-> muts, cut |-> cut]
 Mut(off, m) == [off |-> off, kind |-> m.kind, val |-> m.val]
 
 Cuts == {c \in 0..CutMax : c < 64 \/ c % CutStride = 0}
 Truncations == { D(t, rsh, <<>>, c) : t \in Types, rsh \in {Base, Bigger}, c \in Cuts }
+VecTypes == {t \in Types : Kind(t) = "vec" /\ t # "LWE" /\ t # "LWECompressed"}
 RoundTrips == { D(t, rsh, <<>>, -1) : t \in Types, rsh \in {Base, Bigger, Smaller} }
+              \cup { D(t, rsh, <<>>, -1) : t \in VecTypes, rsh \in {Wide, Tall} }
+\* a writer whose capacity exceeds its active size (max_size field raised) read into reshaped receivers
+Reshaped == UNION { { D(t, rsh, << Mut(InnerAt(t) + 24, m) >>, -1) : rsh \in {Wide, Tall, Base, Bigger},
+                        m \in {[kind |-> "add", val |-> U64(1)], [kind |-> "add", val |-> U64(2)], [kind |-> "set", val |-> P2(31)]} } : t \in VecTypes }
 Field64 == UNION { { D(t, rsh, << Mut(o, m) >>, -1) : o \in Inner64(t), m \in Dict64, rsh \in {Base, Bigger} } : t \in Types }
 Field32 == UNION { { D(t, Base, << Mut(o, m) >>, -1) : o \in Pre32(t), m \in Dict32 } : t \in Types }
 \* two fields at once: a dimension pushed over the usize edge together with len forced to what the wrapped product gives
@@ -53,7 +62,7 @@ Pairs == UNION { { D(t, Base, << Mut(InnerAt(t), [kind |-> "set", val |-> P2(61)
                                 Mut(InnerAt(t) + 8, [kind |-> "set", val |-> P2(32)]),
                                 Mut(InnerAt(t) + LenOff(Kind(t)), [kind |-> "set", val |-> U64(0)]) >>, -1) } : t \in Types }
 
-Descs == Truncations \cup RoundTrips \cup Field64 \cup Field32 \cup Pairs
+Descs == Truncations \cup RoundTrips \cup Reshaped \cup Field64 \cup Field32 \cup Pairs
 
 ASSUME ndJsonSerialize(IOEnv.OUT, SetToSeq(Descs))
 ASSUME PrintT(<<"GENERATED", Cardinality(Descs)>>)
